@@ -84,80 +84,91 @@ Definition empty_node (s : snode) : dnode :=
 Section Edit.
   Variable use_default : bool.     (* editor.useDefault (the ...SetDefaults entry points) *)
 
+  Definition recfun := snode -> dnode -> dnode -> bool -> strategy -> res dnode.
+
+  (** the containerMetaList loop of editor.enter over the flat kids [kids] of a container-like
+      node: source content [sc], [new]/[st] of the enclosing enter; [ks] the kids still to visit,
+      [i] the position of the first of them, [tc] the target content so far.  [rec] is editor.enter
+      on a child (the recursive call). *)
+  Definition kid_loop (rec : recfun) (kids : list snode) (sc : content) (new : bool) (st : strategy)
+    : list snode -> nat -> content -> res content :=
+    fix go (ks : list snode) (i : nat) (tc : content) {struct ks} : res content :=
+      match ks with
+      | [] => Ok tc
+      | k :: ks' =>
+          if negb (guard_selected (sguard k) kids sc) then go ks' (S i) tc else
+          match k with
+          | SLeaf _ _ _ dflt =>
+              (* editor.leaf *)
+              let usedflt := (negb (strategy_eqb st Update) && new) || use_default in
+              let v := match nth i sc None with
+                       | Some d => Some d
+                       | None => if usedflt then option_map DLeaf dflt else None
+                       end in
+              match v with
+              | None => go ks' (S i) tc
+              | Some d =>
+                  let tc1 := if strategy_eqb st Upsert then clear_other_case k kids tc else tc in
+                  go ks' (S i) (set_nth i (Some d) tc1)
+              end
+          | _ =>
+              (* editor.node *)
+              match nth i sc None with
+              | None => go ks' (S i) tc
+              | Some sd =>
+                  let old := nth i tc None in
+                  let step (tc1 : content) (td : dnode) (newc : bool) :=
+                    match rec k sd td newc st with
+                    | Ok td' => go ks' (S i) (set_nth i (Some td') tc1)
+                    | Err e => Err e
+                    end in
+                  match st with
+                  | Insert => match old with Some _ => Err EConflict | None => step tc (empty_node k) true end
+                  | Upsert =>
+                      let tc1 := clear_other_case k kids tc in
+                      match old with Some td => step tc1 td false | None => step tc1 (empty_node k) true end
+                  | Update => match old with Some td => step tc td false | None => Err ENotFound end
+                  end
+              end
+          end
+      end.
+
+  (** editor.list: one enter per source row *)
+  Definition row_loop (rec : recfun) (keys : list nat) (row : snode) (st : strategy)
+    : list dnode -> list dnode -> res (list dnode) :=
+    fix rows (srs : list dnode) (trows : list dnode) {struct srs} : res (list dnode) :=
+      match srs with
+      | [] => Ok trows
+      | sr :: srs' =>
+          let key := row_key keys sr in
+          let found := if key_usable key then find_row keys key trows O else None in
+          match st, found with
+          | Update, None => Err ENotFound
+          | Insert, Some _ => Err EConflict
+          | _, Some j =>
+              match rec row sr (nth j trows (DCont [])) false (match st with Update => Update | _ => Upsert end) with
+              | Ok tr' => rows srs' (set_nth j tr' trows)
+              | Err e => Err e
+              end
+          | _, None =>
+              match rec row sr (empty_node row) true Upsert with
+              | Ok tr' => rows srs' (trows ++ [tr'])
+              | Err e => Err e
+              end
+          end
+      end.
+
   (** editor.enter on the node with schema [s]: [src] the source's data for it, [tgt] the target's
       (already created if it had to be), [new] whether the target node was created by this edit.
       SCont: the containerMetaList loop (editor.leaf / editor.node per definition);
-      SList: editor.list (one enter per source row; below the entry editUpdate stays editUpdate,
-      everything else continues as editUpsert). *)
+      SList: editor.list (below a matched entry editUpdate stays editUpdate, everything else
+      continues as editUpsert). *)
   Fixpoint edit_one (s : snode) (src : dnode) (tgt : dnode) (new : bool) (st : strategy) {struct s} : res dnode :=
     match s, src, tgt with
     | SCont _ kids, DCont sc, DCont tc =>
-        match
-          (fix go (ks : list snode) (i : nat) (tc : content) {struct ks} : res content :=
-             match ks with
-             | [] => Ok tc
-             | k :: ks' =>
-                 if negb (guard_selected (sguard k) kids sc) then go ks' (S i) tc else
-                 match k with
-                 | SLeaf _ _ _ dflt =>
-                     (* editor.leaf *)
-                     let usedflt := (negb (strategy_eqb st Update) && new) || use_default in
-                     let v := match nth i sc None with
-                              | Some d => Some d
-                              | None => if usedflt then option_map DLeaf dflt else None
-                              end in
-                     match v with
-                     | None => go ks' (S i) tc
-                     | Some d =>
-                         let tc1 := if strategy_eqb st Upsert then clear_other_case k kids tc else tc in
-                         go ks' (S i) (set_nth i (Some d) tc1)
-                     end
-                 | _ =>
-                     (* editor.node *)
-                     match nth i sc None with
-                     | None => go ks' (S i) tc
-                     | Some sd =>
-                         let old := nth i tc None in
-                         let step (tc1 : content) (td : dnode) (newc : bool) :=
-                           match edit_one k sd td newc st with
-                           | Ok td' => go ks' (S i) (set_nth i (Some td') tc1)
-                           | Err e => Err e
-                           end in
-                         match st with
-                         | Insert => match old with Some _ => Err EConflict | None => step tc (empty_node k) true end
-                         | Upsert =>
-                             let tc1 := clear_other_case k kids tc in
-                             match old with Some td => step tc1 td false | None => step tc1 (empty_node k) true end
-                         | Update => match old with Some td => step tc td false | None => Err ENotFound end
-                         end
-                     end
-                 end
-             end) kids O tc
-        with Ok tc' => Ok (DCont tc') | Err e => Err e end
+        match kid_loop edit_one kids sc new st kids O tc with Ok tc' => Ok (DCont tc') | Err e => Err e end
     | SList _ keys row, DList srows, DList trows =>
-        match
-          (fix rows (srs : list dnode) (trows : list dnode) {struct srs} : res (list dnode) :=
-             match srs with
-             | [] => Ok trows
-             | sr :: srs' =>
-                 let key := row_key keys sr in
-                 let found := if key_usable key then find_row keys key trows O else None in
-                 match st, found with
-                 | Update, None => Err ENotFound
-                 | Insert, Some _ => Err EConflict
-                 | _, Some j =>
-                     match edit_one row sr (nth j trows (DCont [])) false (match st with Update => Update | _ => Upsert end) with
-                     | Ok tr' => rows srs' (set_nth j tr' trows)
-                     | Err e => Err e
-                     end
-                 | _, None =>
-                     match edit_one row sr (empty_node row) true Upsert with
-                     | Ok tr' => rows srs' (trows ++ [tr'])
-                     | Err e => Err e
-                     end
-                 end
-             end) srows trows
-        with Ok trows' => Ok (DList trows') | Err e => Err e end
+        match row_loop edit_one keys row st srows trows with Ok trows' => Ok (DList trows') | Err e => Err e end
     | _, _, _ => Err EOther     (* data not shaped like the schema: outside the domain *)
     end.
 
